@@ -101,3 +101,7 @@ mod env {
 pub fn all_main_commands() -> Vec<&'static str> {
     vec!["thanm", "thstd"]
 }
+
+#[cfg(kani)]
+#[path = "/verif/contracts/kani/common.rs"]
+pub(crate) mod verif_common;
